@@ -64,11 +64,11 @@ CHECKS = {
     "C17": C("Lean 4 proof (partial: per-validation freshness, fold order via C14) + " + CORR + " on pydantic models",
              "validation_starts_empty + C14; PYD protocol: generated models (base types np.ndarray / np.ndarray[..] / npt.NDArray[..] / torch / jax, optional and plain fields, validate_assignment) with constructions in shuffled keyword order and assignments; clean public data observed.",
              "pydantic-core's scheduling of validators is trusted. F13 (assignment under validate_assignment) is an open known finding.", "DESIGN.md §4 C17, §5 F13", []),
-    "C18": C("Lean 4 proof (partial: printer model with folding; negation of the full statement with a kernel-checked witness) + " + CORR + " against Python's own evaluation",
+    "C18": C("Lean 4 proof (partial: printer model with folding; negation of the full statement with a kernel-checked witness; the symbolic classes regenerated from the source by the statement-level translator and proved equal to the model, Properties/CoreSym.lean) + " + CORR + " against Python's own evaluation",
              "The printer model (Symbolic.lean) is compared with str(Shape[...]) on exhaustive-small and random trees; parse(print s) is compared with Python's evaluation of the operator expression; the full statement is false (known finding F12: no parentheses are inserted; negative folded literals).",
              "F12/F12n are open known findings; outside their region the printed string must evaluate to Python's value.", "DESIGN.md §4 C18, §5 F12", []),
     "C19": C("Lean 4 proof (partial: eager transparency, scripting guard) + observation of generated torch modules under trace / script / compile against undecorated twins",
-             "eager_transparent, scripting_returns_function_itself; 14 generated modules x {eager, jit.trace (positional and keyword example inputs), jit.script, torch.compile(eager)} x conforming / non-conforming inputs.",
+             "eager_transparent, scripting_returns_function_itself; 17 generated modules x {eager, jit.trace (positional and keyword example inputs), jit.script, torch.compile(eager)} x conforming / non-conforming inputs.",
              "TorchScript, the tracer and dynamo are not modelled at all: capture modes are observed only.", "DESIGN.md §4 C19", []),
     "C20": C("Lean 4 proof (decision tables by decide over the regenerated selection logic, all 8 environments) + 8 fresh interpreters",
              "import_outcome / supported_types / exports / universal_dtypes_are_union over the if/elif chains of _dtypes.py and __init__.py and the DTYPES expressions of _universal_tensors.py rendered by the translator; each of the 8 availability combinations is realised in a fresh interpreter and compared.",
